@@ -113,22 +113,22 @@ Qed.
 
 (* the checkers do reject: rows of the unfixed tree (DR1, DR2, DR4; a self-acquisition; a receive under a lock) *)
 Example bad_row_DR1 :
-  site_ok (mkSite "gcp_multiendpoint.go" 140 "(*GCPMultiEndpoint).pickConn" "GCPMultiEndpoint" "mes" KCRead false false [] [] [] [CxApp]) = false.
+  site_ok (mkSite "gcp_multiendpoint.go" 140 "GCPMultiEndpoint.pickConn" "GCPMultiEndpoint" "mes" KCRead false false [] [] [] [CxApp]) = false.
 Proof. vm_compute. reflexivity. Qed.
 Example bad_row_DR2 :
-  site_ok (mkSite "gcp_balancer.go" 195 "(*subConnRef).gotResp" "subConnRef" "lastResp" KWrite false false [] [] [] [CxDone]) = false.
+  site_ok (mkSite "gcp_balancer.go" 195 "subConnRef.gotResp" "subConnRef" "lastResp" KWrite false false [] [] [] [CxDone]) = false.
 Proof. vm_compute. reflexivity. Qed.
 Example read_lock_does_not_allow_write :
   site_ok (mkSite "x.go" 1 "f" "gcpBalancer" "scRefs" KCWrite false false [(GB, MR)] [(GB, MR)] [] [CxPick]) = false.
 Proof. vm_compute. reflexivity. Qed.
 Example good_row :
-  site_ok (mkSite "gcp_balancer.go" 357 "(*gcpBalancer).addSubConn" "gcpBalancer" "scRefs" KCWrite false false [(GB, MW)] [(GB, MW); (GP, MW)] [] [CxCallback; CxPick]) = true.
+  site_ok (mkSite "gcp_balancer.go" 357 "gcpBalancer.addSubConn" "gcpBalancer" "scRefs" KCWrite false false [(GB, MW)] [(GB, MW); (GP, MW)] [] [CxCallback; CxPick]) = true.
 Proof. vm_compute. reflexivity. Qed.
 Example unknown_field_is_rejected :
   site_ok (mkSite "x.go" 1 "f" "gcpBalancer" "brandNewField" KRead false false [(GB, MW)] [(GB, MW)] [] [CxPick]) = false.
 Proof. vm_compute. reflexivity. Qed.
 Example self_acquire_rejected :
-  acquire_ok (mkAcq "gcp_balancer.go" 327 "(*gcpBalancer).newSubConn" GB MW [(GB, MW)] [(GB, MW)]) = false.
+  acquire_ok (mkAcq "gcp_balancer.go" 327 "gcpBalancer.newSubConn" GB MW [(GB, MW)] [(GB, MW)]) = false.
 Proof. vm_compute. reflexivity. Qed.
 Example rlock_under_rlock_rejected :
   acquire_ok (mkAcq "x.go" 1 "f" GB MR [(GB, MR)] [(GB, MR)]) = false.
@@ -140,7 +140,7 @@ Example receive_under_lock_rejected :
   block_ok (mkBlk "x.go" 1 "f" BChanRecv "ch" "" [(GB, MW)] [(GB, MW)]) = false.
 Proof. vm_compute. reflexivity. Qed.
 Example cond_wait_on_own_mutex_accepted :
-  block_ok (mkBlk "gcp_interceptor.go" 122 "(*gcpClientStream).RecvMsg" BCondWait "cs.cond" CS [(CS, MW)] [(CS, MW)]) = true.
+  block_ok (mkBlk "gcp_interceptor.go" 122 "gcpClientStream.RecvMsg" BCondWait "cs.cond" CS [(CS, MW)] [(CS, MW)]) = true.
 Proof. vm_compute. reflexivity. Qed.
 
 (* regression: the reference table (tree with the proposed fixes) passes every check *)
